@@ -256,7 +256,11 @@ def run_case(label, kind, arg, keep_dir=None):
 
             return [("load-raised:" + type(e).__name__, {"trace": traceback.format_exc()[-500:]})]
     got = snapshot(ds)
-    exp, focus = expected_from_full(out, full, kind, arg)
+    try:
+        exp, focus = expected_from_full(out, full, kind, arg)
+    except KeyError as e:
+        # the full load (made earlier in this process) does not hold a variable that is stored in the files
+        return [("full-load-lacks-stored-variable", {"variable": str(e), "full_groups": {g: sorted(v) for g, v in full.items()}})]
     return diff(exp, got, focus)
 
 
